@@ -12,7 +12,7 @@ import asn1crypto.parser
 
 from cryptodatahub.common.exception import InvalidValue
 
-from cryptoparser.common.exception import NotEnoughData
+from cryptoparser.common.exception import InvalidType, NotEnoughData
 from cryptoparser.common.parse import ParsableBase
 
 
@@ -201,6 +201,8 @@ class LDAPExtendedResponseStartTLS(LDAPMessageParsableBase):
     @classmethod
     def _parse(cls, parsable):
         asn1_message = cls._parse_asn1(parsable)
+        if asn1_message['protocolOp'].name != 'extendedResp':
+            raise InvalidType()
 
         return LDAPExtendedResponseStartTLS(
             asn1_message['protocolOp'].chosen['resultCode'].native
